@@ -3,6 +3,7 @@
 package absnfs
 
 import (
+	"bytes"
 	"fmt"
 	"path"
 	"os"
@@ -203,6 +204,7 @@ func TestVerif_C29(t *testing.T) {
 	rec.Assumptions = []string{"the backend (refs) is thread-safe: one mutex around every call", "a handle names a path (the server re-opens by path on every request)"}
 	defer rec.Write()
 	vfC29Fills(rec)
+	vfC29ReadStorm(rec)
 	eps := evid.Pick(90, 12000)
 	for ep := 0; ep < eps && rec.Violations() < 20 && !vfC29Hung; ep++ {
 		vfC29Episode(rec, ep)
@@ -1100,4 +1102,98 @@ func vfC29JudgeStall(rec *evid.Rec, ep int, mode string, done <-chan struct{}, w
 	rec.Write()
 	os.Exit(0)
 	return true
+}
+
+// vfC29ReadStorm: several connections of the real connection loop (each request answered on the
+// connection it came in on) read files that nobody writes. Each file has its own byte pattern, so a
+// reply that carries another request's data - a buffer shared between requests - is recognised at
+// once; the race detector watches the same traffic.
+func vfC29ReadStorm(rec *evid.Rec) {
+	for ep := 0; ep < evid.Pick(3, 40); ep++ {
+		rng := evid.Rng(2929, int64(ep))
+		fs := refs.New()
+		nconn := 4 + rng.Intn(5)
+		sizes := make([]int, nconn)
+		for k := 0; k < nconn; k++ {
+			sizes[k] = []int{64, 1000, 4096, 8192, 20000}[rng.Intn(5)]
+			fs.PlantFile(fmt.Sprintf("/r%d", k), bytes.Repeat([]byte{byte('A' + k)}, sizes[k]), 0644, 0, 0)
+		}
+		srv, err := vfNewSrv(fs, ExportOptions{AttrCacheTimeout: 5 * time.Second, MaxWorkers: 2 + rng.Intn(6)})
+		if err != nil {
+			rec.Infra(err.Error())
+			return
+		}
+		c0 := srv.client()
+		root, _ := c0.mnt("/")
+		hs := make([]uint64, nconn)
+		for k := range hs {
+			if l, _ := c0.lookup(root, fmt.Sprintf("r%d", k)); l != nil && l.Status == 0 {
+				hs[k] = vfFH(l.FH)
+			}
+		}
+		var wg sync.WaitGroup
+		var reads, foreign, undecodable atomic.Int64
+		var firstBad atomic.Pointer[string]
+		for k := 0; k < nconn; k++ {
+			wg.Add(1)
+			go func(k int) {
+				defer wg.Done()
+				p := srv.pipe("127.0.0.1", 700+k)
+				defer p.close()
+				for i := 0; i < 150; i++ {
+					_, raw, err := p.call(vfProgNFS, 3, 6, vfRootCred(), xdrw.ArgRead(hs[k], 0, uint32(sizes[k])))
+					if err != nil {
+						return
+					}
+					rep, derr := rfc.DecodeReply(raw)
+					if derr != nil || rep.Denied || rep.AcceptStat != 0 {
+						undecodable.Add(1)
+						continue
+					}
+					res, derr := rfc.DecodeNFS(6, rep.Body)
+					if derr != nil || res == nil {
+						undecodable.Add(1)
+						m := fmt.Sprintf("connection %d: READ reply does not decode: %v", k, derr)
+						firstBad.CompareAndSwap(nil, &m)
+						continue
+					}
+					if res.Status != 0 {
+						continue
+					}
+					reads.Add(1)
+					for j, b := range res.Data {
+						if b != byte('A'+k) {
+							foreign.Add(1)
+							m := fmt.Sprintf("connection %d read /r%d (all %q): byte %d of the reply is %q", k, k, byte('A'+k), j, b)
+							firstBad.CompareAndSwap(nil, &m)
+							break
+						}
+					}
+					if len(res.Data) != sizes[k] {
+						foreign.Add(1)
+						m := fmt.Sprintf("connection %d read /r%d (%d bytes): the reply carries %d bytes", k, k, sizes[k], len(res.Data))
+						firstBad.CompareAndSwap(nil, &m)
+					}
+				}
+			}(k)
+		}
+		done := make(chan struct{})
+		go func() { wg.Wait(); close(done) }()
+		select {
+		case <-done:
+		case <-time.After(120 * time.Second):
+			rec.Inconclusive(1)
+			return
+		}
+		rec.Eval(int(reads.Load()))
+		if foreign.Load() > 0 || undecodable.Load() > 0 {
+			what := ""
+			if m := firstBad.Load(); m != nil {
+				what = *m
+			}
+			rec.Violate("C29/read-reply-carries-data-of-another-request", fmt.Sprintf("%d connections reading files nobody writes: %d replies with foreign or missing bytes, %d undecodable; first: %s", nconn, foreign.Load(), undecodable.Load(), what), map[string]any{"episode": ep})
+		}
+		rec.Distinct(fmt.Sprintf("read-storm|conns=%d|clean=%v", nconn, foreign.Load() == 0 && undecodable.Load() == 0))
+		srv.Close()
+	}
 }
